@@ -203,6 +203,9 @@ def zeroNaN : Option α → α
   | none => 0
   | some x => x
 
+@[simp] theorem zeroNaN_none : zeroNaN (none : Option α) = 0 := rfl
+@[simp] theorem zeroNaN_some (x : α) : zeroNaN (some x) = x := rfl
+
 /-- the centred value the residual kernel works with: `x - m`, or the AR prediction when `x` is missing -/
 def cval (ps buf : Vector α p) (m : α) : Option α → α
   | none => dot ps buf
@@ -407,5 +410,246 @@ theorem simBuf_content (ps : Vector α p) (m : α) :
   | cons e es ih =>
     intro buf k hk
     rw [simBuf_cons, simRun_cons, List.length_cons, glag_cons, ih]
+
+
+/-! ### guards -/
+
+theorem allSome_map_some {β : Type} (ps : List β) : allSome (ps.map some) = some ps := by
+  induction ps with
+  | nil => rfl
+  | cons a t ih => simp [allSome, ih]
+
+theorem allSome_eq_some {β : Type} : ∀ (l : List (Option β)) (ps : List β), allSome l = some ps → l = ps.map some := by
+  intro l; induction l with
+  | nil => intro ps h; simp [allSome] at h; subst h; rfl
+  | cons a t ih =>
+    intro ps h
+    cases a with
+    | none => simp [allSome] at h
+    | some a =>
+      simp only [allSome] at h
+      cases ht : allSome t with
+      | none => simp [ht] at h
+      | some l' =>
+        simp only [ht, Option.some.injEq] at h
+        subst h
+        simp [ih l' ht]
+
+theorem allSome_eq_none {β : Type} : ∀ (l : List (Option β)), allSome l = none ↔ none ∈ l := by
+  intro l; induction l with
+  | nil => simp [allSome]
+  | cons a t ih =>
+    cases a with
+    | none => simp [allSome]
+    | some a =>
+      simp only [allSome]
+      cases ht : allSome t with
+      | none => simp [ih.mp ht]
+      | some l' =>
+        have : none ∉ t := fun h => by rw [ih.mpr h] at ht; cases ht
+        simp [this]
+
+omit [CommRing α] in
+/-- the guards accept exactly: order in 1..10, no NaN coefficient, mean and initial value not NaN -/
+theorem validate_ok (ps : List α) (m i : α) (h1 : 1 ≤ ps.length) (h10 : ps.length ≤ 10) :
+    validate (ps.map some) (some m) (some i) = .ok (ps, m, i) := by
+  have : ¬ (10 < ps.length) := by omega
+  have h0 : ps.length ≠ 0 := by omega
+  simp [validate, nparamsMax, allSome_map_some, this, h0]
+
+omit [CommRing α] in
+theorem validate_eq_ok (params : List (Option α)) (mean ini : Option α) (ps : List α) (m i : α)
+    (h : validate params mean ini = .ok (ps, m, i)) :
+    params = ps.map some ∧ mean = some m ∧ ini = some i ∧ 1 ≤ ps.length ∧ ps.length ≤ 10 := by
+  unfold validate at h
+  split at h
+  · cases h
+  · rename_i hlen
+    simp [nparamsMax] at hlen
+    cases hp : allSome params with
+    | none => simp [hp] at h
+    | some ps' =>
+      cases mean with
+      | none => simp [hp] at h
+      | some m' =>
+        cases ini with
+        | none => simp [hp] at h
+        | some i' =>
+          simp only [hp, Except.ok.injEq, Prod.mk.injEq] at h
+          obtain ⟨rfl, rfl, rfl⟩ := h
+          have := allSome_eq_some params ps' hp
+          subst this
+          have h10 : ¬ 10 < ps'.length := by
+            have := of_decide_eq_false hlen.1
+            simpa using this
+          have h0 : ps' ≠ [] := by
+            intro h0; subst h0; simp at hlen
+          have := List.length_pos_iff.mpr h0
+          exact ⟨rfl, rfl, rfl, by omega, by omega⟩
+
+
+omit [CommRing α] in
+theorem validate_isOk_iff (params : List (Option α)) (mean ini : Option α) :
+    (∃ r, validate params mean ini = .ok r) ↔
+      (1 ≤ params.length ∧ params.length ≤ 10 ∧ none ∉ params ∧ mean ≠ none ∧ ini ≠ none) := by
+  constructor
+  · rintro ⟨⟨ps, m, i⟩, h⟩
+    obtain ⟨rfl, rfl, rfl, h1, h10⟩ := validate_eq_ok params mean ini ps m i h
+    simp [h1, h10]
+  · rintro ⟨h1, h10, hp, hm, hi⟩
+    cases hps : allSome params with
+    | none => exact absurd ((allSome_eq_none params).mp hps) hp
+    | some ps =>
+      have := allSome_eq_some params ps hps
+      subst this
+      obtain ⟨m, rfl⟩ := Option.ne_none_iff_exists'.mp hm
+      obtain ⟨i, rfl⟩ := Option.ne_none_iff_exists'.mp hi
+      simp only [List.length_map] at h1 h10
+      exact ⟨_, validate_ok ps m i h1 h10⟩
+
+omit [CommRing α] in
+/-- which guard speaks, in the order of the C text -/
+theorem validate_error (params : List (Option α)) (mean ini : Option α) :
+    (validate params mean ini = .error .badOrder ↔ (params.length = 0 ∨ 10 < params.length)) ∧
+    (validate params mean ini = .error .nanParam ↔
+      (1 ≤ params.length ∧ params.length ≤ 10 ∧ none ∈ params)) ∧
+    (validate params mean ini = .error .nanMean ↔
+      (1 ≤ params.length ∧ params.length ≤ 10 ∧ none ∉ params ∧ mean = none)) ∧
+    (validate params mean ini = .error .nanIni ↔
+      (1 ≤ params.length ∧ params.length ≤ 10 ∧ none ∉ params ∧ mean ≠ none ∧ ini = none)) := by
+  unfold validate
+  by_cases hb : params.length = 0 ∨ 10 < params.length
+  · have hlen : (decide (nparamsMax < params.length) || params.length == 0) = true := by
+      rcases hb with h | h
+      · simp [h]
+      · simp [nparamsMax, h]
+    rw [if_pos hlen]
+    refine ⟨⟨fun _ => hb, fun _ => rfl⟩, ⟨fun h => (by cases h), fun h => (by omega)⟩,
+      ⟨fun h => (by cases h), fun h => (by omega)⟩, ⟨fun h => (by cases h), fun h => (by omega)⟩⟩
+  · have hlen : ¬ (decide (nparamsMax < params.length) || params.length == 0) = true := by
+      intro h
+      rcases (Bool.or_eq_true _ _).mp h with h | h
+      · have h' := of_decide_eq_true h
+        simp only [nparamsMax] at h'
+        omega
+      · have h' : params.length = 0 := by simpa using h
+        omega
+    have hl : 1 ≤ params.length ∧ params.length ≤ 10 := by omega
+    rw [if_neg hlen]
+    cases hps : allSome params with
+    | none =>
+      have hin := (allSome_eq_none params).mp hps
+      refine ⟨⟨fun h => (by cases h), fun h => absurd h hb⟩, ⟨fun _ => ⟨hl.1, hl.2, hin⟩, fun _ => rfl⟩,
+        ⟨fun h => (by cases h), fun h => absurd hin h.2.2.1⟩, ⟨fun h => (by cases h), fun h => absurd hin h.2.2.1⟩⟩
+    | some ps =>
+      have hnot : none ∉ params := fun h => by rw [(allSome_eq_none params).mpr h] at hps; cases hps
+      cases mean with
+      | none =>
+        refine ⟨⟨fun h => (by cases h), fun h => absurd h hb⟩, ⟨fun h => (by cases h), fun h => absurd h.2.2 hnot⟩,
+          ⟨fun _ => ⟨hl.1, hl.2, hnot, rfl⟩, fun _ => rfl⟩, ⟨fun h => (by cases h), fun h => absurd rfl h.2.2.2.1⟩⟩
+      | some m =>
+        cases ini with
+        | none =>
+          refine ⟨⟨fun h => (by cases h), fun h => absurd h hb⟩, ⟨fun h => (by cases h), fun h => absurd h.2.2 hnot⟩,
+            ⟨fun h => (by cases h), fun h => (by cases h.2.2.2)⟩,
+            ⟨fun _ => ⟨hl.1, hl.2, hnot, by simp, rfl⟩, fun _ => rfl⟩⟩
+        | some i =>
+          refine ⟨⟨fun h => (by cases h), fun h => absurd h hb⟩, ⟨fun h => (by cases h), fun h => absurd h.2.2 hnot⟩,
+            ⟨fun h => (by cases h), fun h => (by cases h.2.2.2)⟩, ⟨fun h => (by cases h), fun h => (by cases h.2.2.2.2)⟩⟩
+
+/-! ### from the API-level functions down to the series loops -/
+
+theorem sim_of_valid (nan : α → Bool) (ps : List α) (m i : α) (innov : List (Option α))
+    (h1 : 1 ≤ ps.length) (h10 : ps.length ≤ 10) :
+    sim nan (ps.map some) (some m) (some i) innov =
+      .ok (simRun nan (toVec ps) m (Vector.replicate ps.length (i - m)) innov) := by
+  simp [sim, validate_ok ps m i h1 h10]
+
+theorem residual_of_valid (nan : α → Bool) (ps : List α) (m i : α) (inputs : List (Option α))
+    (h1 : 1 ≤ ps.length) (h10 : ps.length ≤ 10) :
+    residual nan (ps.map some) (some m) (some i) inputs =
+      .ok (resRun nan (toVec ps) m (Vector.replicate ps.length (i - m)) inputs) := by
+  simp [residual, validate_ok ps m i h1 h10]
+
+theorem sim_eq_ok (nan : α → Bool) (params : List (Option α)) (mean ini : Option α)
+    (innov : List (Option α)) (ys : List α) (h : sim nan params mean ini innov = .ok ys) :
+    ∃ (ps : List α) (m i : α), params = ps.map some ∧ mean = some m ∧ ini = some i ∧
+      1 ≤ ps.length ∧ ps.length ≤ 10 ∧
+      ys = simRun nan (toVec ps) m (Vector.replicate ps.length (i - m)) innov := by
+  unfold sim at h
+  cases hv : validate params mean ini with
+  | error e => simp [hv] at h
+  | ok r =>
+    obtain ⟨ps, m, i⟩ := r
+    simp only [hv, Except.ok.injEq] at h
+    obtain ⟨h1, h2, h3, h4, h5⟩ := validate_eq_ok params mean ini ps m i hv
+    exact ⟨ps, m, i, h1, h2, h3, h4, h5, h.symm⟩
+
+theorem residual_eq_ok (nan : α → Bool) (params : List (Option α)) (mean ini : Option α)
+    (inputs : List (Option α)) (rs : List α) (h : residual nan params mean ini inputs = .ok rs) :
+    ∃ (ps : List α) (m i : α), params = ps.map some ∧ mean = some m ∧ ini = some i ∧
+      1 ≤ ps.length ∧ ps.length ≤ 10 ∧
+      rs = resRun nan (toVec ps) m (Vector.replicate ps.length (i - m)) inputs := by
+  unfold residual at h
+  cases hv : validate params mean ini with
+  | error e => simp [hv] at h
+  | ok r =>
+    obtain ⟨ps, m, i⟩ := r
+    simp only [hv, Except.ok.injEq] at h
+    obtain ⟨h1, h2, h3, h4, h5⟩ := validate_eq_ok params mean ini ps m i hv
+    exact ⟨ps, m, i, h1, h2, h3, h4, h5, h.symm⟩
+
+theorem sim_error_iff (nan : α → Bool) (params : List (Option α)) (mean ini : Option α)
+    (innov : List (Option α)) (e : Err) :
+    sim nan params mean ini innov = .error e ↔ validate params mean ini = .error e := by
+  unfold sim
+  cases hv : validate params mean ini with
+  | error e' => simp
+  | ok r => obtain ⟨ps, m, i⟩ := r; simp
+
+theorem residual_error_iff (nan : α → Bool) (params : List (Option α)) (mean ini : Option α)
+    (inputs : List (Option α)) (e : Err) :
+    residual nan params mean ini inputs = .error e ↔ validate params mean ini = .error e := by
+  unfold residual
+  cases hv : validate params mean ini with
+  | error e' => simp
+  | ok r => obtain ⟨ps, m, i⟩ := r; simp
+
+theorem simRun_length' (nan : α → Bool) (ps : Vector α p) (m : α) :
+    ∀ (es : List (Option α)) (buf : Vector α p), (simRun nan ps m buf es).length = es.length := by
+  intro es; induction es with
+  | nil => intro buf; rfl
+  | cons e es ih => intro buf; simp [simRun, ih]
+
+theorem resRun_length' (nan : α → Bool) (ps : Vector α p) (m : α) :
+    ∀ (xs : List (Option α)) (buf : Vector α p), (resRun nan ps m buf xs).length = xs.length := by
+  intro xs; induction xs with
+  | nil => intro buf; rfl
+  | cons x xs ih => intro buf; simp [resRun, ih]
+
+/-- a NaN innovation is read as 0 before anything else happens (any `isnan`, e.g. at `Float`) -/
+theorem simRun_zeroed (nan : α → Bool) (ps : Vector α p) (m : α) :
+    ∀ (es : List (Option α)) (buf : Vector α p),
+      simRun nan ps m buf (es.map fun e => some (zeroNaN e)) = simRun nan ps m buf es := by
+  intro es; induction es with
+  | nil => intro buf; rfl
+  | cons e es ih => intro buf; cases e <;> simp only [List.map_cons, simRun, zeroNaN_none, zeroNaN_some, ih]
+
+omit [CommRing α] in
+theorem toVec_getElem (ps : List α) (k : Nat) (hk : k < ps.length) : (toVec ps)[k] = ps[k] := by
+  simp [toVec]
+
+/-- the value `k+1` steps before step `t` of the output series `ys`: an earlier output, or the initial
+value before the start of the series (`y[t-(k+1)]` with `y[-j] = ini`) -/
+def past (ys : List α) (ini : α) (t k : Nat) : α :=
+  if h : k < t ∧ t - 1 - k < ys.length then ys[t - 1 - k] else ini
+
+theorem glag_replicate (ys : List α) (ini m : α) (t k : Nat) (hk : k < p) (ht : t ≤ ys.length) :
+    glag ys (Vector.replicate p (ini - m)) m t k hk = past ys ini t k - m := by
+  unfold glag past
+  by_cases h1 : k < t
+  · have h2 : t - 1 - k < ys.length := by omega
+    simp [h1, h2, List.getD_eq_getElem?_getD]
+  · simp [h1]
 
 end HydroVerif.C17
